@@ -117,7 +117,9 @@ class Harness:
 
 def storage_rows(h):
     """Current rows of the explainer's storage (public get_data of the real class, bypassing the spy)."""
-    st = h.expl._storage if h.storage is None else h.storage
+    st = getattr(h.expl, '_storage', None) if h.storage is None else h.storage
+    if st is None:
+        return None        # library-default storage behind a private attribute that does not exist (any more)
     cls = type(st)
     base = cls.__mro__[1] if cls.__name__.endswith('Spy') else cls
     xs, _ = base.get_data(st)
